@@ -16,20 +16,33 @@ import (
 
 const tokenADD = token.ADD
 
-type scheduler struct{}
-
-func (w *Worker) visible(fr *frame, what string) {}
+func (w *Worker) visible(fr *frame, what string) {
+	if w.sched != nil && w.sched.level >= 2 {
+		w.yieldPoint(nil, what)
+	}
+}
 
 func (w *Worker) syncOp(fr *frame, name string, a []Value) Value {
+	if w.sched != nil {
+		return w.syncOpSched(fr, name, a)
+	}
 	return nil
 }
 
 func (w *Worker) goStmt(fr *frame, instr *ssa.Go, fn Value, args []Value) {
+	if w.sched != nil {
+		w.goStmtSched(fr, instr, fn, args)
+		return
+	}
 	w.stub("go statement: callee run to completion at the go statement (sequential mode)")
 	w.call(fr, instr.Pos(), fn, args)
 }
 
 func (w *Worker) chanSend(fr *frame, c *Chan, v Value, pos token.Pos) {
+	if w.sched != nil {
+		w.chanSendSched(fr, c, v, pos)
+		return
+	}
 	if c == nil {
 		panic(engineError{"send on nil channel blocks forever"})
 	}
@@ -48,6 +61,9 @@ func (w *Worker) chanSend(fr *frame, c *Chan, v Value, pos token.Pos) {
 }
 
 func (w *Worker) chanRecv(fr *frame, c *Chan, commaOk bool, t types.Type, pos token.Pos) Value {
+	if w.sched != nil {
+		return w.chanRecvSched(fr, c, commaOk, t, pos)
+	}
 	if c == nil {
 		panic(engineError{"receive from nil channel blocks forever"})
 	}
@@ -79,6 +95,9 @@ func (w *Worker) chanRecv(fr *frame, c *Chan, commaOk bool, t types.Type, pos to
 }
 
 func (w *Worker) chanClose(fr *frame, c *Chan, pos token.Pos) {
+	if w.sched != nil {
+		w.yieldPoint(nil, "close")
+	}
 	if c == nil {
 		panic(targetPanic{v: Iface{t: w.rtErrType, v: mkStr("close of nil channel")}, where: fr.where(pos)})
 	}
@@ -94,6 +113,9 @@ func (w *Worker) chanClose(fr *frame, c *Chan, pos token.Pos) {
 // selectOp in sequential mode: the enabled cases are those that can proceed
 // now; the choice among them is nondeterministic (forked).
 func (w *Worker) selectOp(fr *frame, instr *ssa.Select) Value {
+	if w.sched != nil {
+		return w.selectSched(fr, instr)
+	}
 	var enabled []int
 	for i, st := range instr.States {
 		c, _ := fr.get(st.Chan).(*Chan)
